@@ -58,6 +58,71 @@ def fault_list(info):
     return faults
 
 
+def fault_job(data, hist, step, max_faults, force=False):
+    """Enumerate (or sample) the faults of one job; returns True if the job
+    was taken."""
+    info = hist.dry_run(step)
+    interesting = info and info['ops'] and any(
+        r.startswith('refs/heads/') for r in info['moved'])
+    dest_moved = info and any(
+        is_dest(r[len('refs/heads/'):]) for r in info['moved']
+        if r.startswith('refs/heads/'))
+    take = dest_moved or (interesting and (force or data.draw(
+        st.integers(0, 3), label='take') == 0))
+    if not take:
+        return False
+    hist.flags.add('c02_faulted_job')
+    if dest_moved:
+        hist.flags.add('c02_faulted_merging_job')
+    faults = fault_list(info)
+    if len(faults) > max_faults:
+        core = [f for f in faults if f['kind'] == 'reject' and is_dest(
+            f['ref'][len('refs/heads/'):]) and not f['once']]
+        rest = [f for f in faults if f not in core]
+        k = max(1, max_faults - len(core))
+        idx = data.draw(st.lists(
+            st.integers(0, len(rest) - 1), min_size=min(k, len(rest)),
+            max_size=min(k, len(rest)), unique=True), label='faults')
+        faults = core + [rest[i] for i in sorted(idx)]
+    policy = data.draw(st.integers(0, 3), label='policy')
+    for f in faults:
+        hist.apply({'op': 'fault', 'job': step, 'fault': f,
+                    'policy': policy})
+        if hist.violations:
+            break
+    return True
+
+
+def new_target_prelude(data, hist, max_faults):
+    """A pull request whose integration branches exist gets a new, later
+    target (a new development branch is created) and a new commit: the next
+    evaluation updates existing w/ branches AND creates a new one - the job
+    whose pushes are the most delicate to interrupt."""
+    from vf.sim.world import AUTHOR, PEER1
+    w = hist.world
+    chain = [n for n in w.chain if n in w.heads()]
+    if len(chain) < 2:
+        return
+    hist.apply({'op': 'open_pr', 'src': 'feature/TEST-1-nt', 'dst': chain[0],
+                'author': AUTHOR, 'base_back': 0})
+    if not w.prs:
+        return
+    p = max(w.prs)
+    hist.apply({'op': 'approve', 'pr': p, 'user': PEER1})
+    hist.apply({'op': 'pr_event', 'pr': p})
+    nb = ('development/11.0', 'development/10.1', 'development/12.0')[
+        data.draw(st.integers(0, 2), label='newdev')]
+    hist.apply({'op': 'admin', 'kind': 'create_branch',
+                'args': {'branch': nb}})
+    hist.apply({'op': 'drain'})
+    hist.apply({'op': 'push_src', 'pr': p, 'kind': 'add'})
+    hist.flags.add('c02_new_target_prelude')
+    step = {'op': 'pr_event', 'pr': p}
+    fault_job(data, hist, step, max(max_faults, 8), force=True)
+    if not hist.violations:
+        hist.apply(step)
+
+
 def body_factory(tier):
     max_jobs = 2 if tier == 'quick' else 4
     max_faults = 5 if tier == 'quick' else 10 ** 6
@@ -66,6 +131,10 @@ def body_factory(tier):
         n = data.draw(st.integers(8, 22), label='nsteps')
         done = 0
         stop = False
+        if data.draw(st.integers(0, 2), label='new_target') == 0:
+            new_target_prelude(data, hist, max_faults)
+            if hist.violations:
+                return
         while len(hist.steps) < 400 and not stop:
             plain = sum(1 for s in hist.steps if s['op'] != 'fault')
             if plain >= n and done >= max_jobs:
